@@ -288,6 +288,10 @@ def gen_blinds(rng, n, unit, bb):
     elif k < 0.85 and n >= 4:
         v = [sb, bb] + [0] * (n - 2)
         v[rng.randrange(2, n)] = -bb                       # late post
+    elif k < 0.87 and n >= 4:
+        # a post that is bigger than every blind
+        v = [sb, bb] + [0] * (n - 2)
+        v[rng.randrange(2, n)] = -rng.choice([2 * bb, 3 * bb, bb + 1])
     elif k < 0.89 and n >= 4:
         v = [sb, bb, -bb, 2 * bb]          # a post seated below a straddle
         if n >= 5 and rng.random() < 0.5:
